@@ -23,7 +23,7 @@ func init() {
 	core.Register(&core.Prop{
 		ID: "C20",
 		Rule: "spelling phase (each system is also paired with a near twin - one numeric parameter negated or nudged by 1e-6 - for which Equal and NewTransform==nil must agree and a nil transformer is accepted only if both definitions project a position to the same coordinates): case = one generated system (Mercator_1SP, Lambert_Conformal_Conic_2SP, Albers_Conic_Equal_Area, Equidistant_Conic, Transverse_Mercator or plain geographic; random parameters; spheroid by (a, 1/f); TOWGS84 with 3/7 terms or none; linear unit metre / foot / US survey foot) printed by the harness as a PROJ.4 string and as WKT (ESRI parameter names, and for the conics also the OGC/GDAL names latitude_of_center / longitude_of_center), transformed at 4 usable positions from a fresh WGS84 source (definitions with TOWGS84) or from the same-spheroid geographic system spelled both ways (definitions without): forward results must agree within 1e-6 m, inverse within 1e-11 deg; " +
-			"registry phase: registered names vs their published definition strings (Equal, identical outputs), same text parsed twice, and NewTransform == nil exactly when Equal(…, 3) for pairs that are identical or differ by 1 ulp / 1e-9 / name / units / datum-parameter count; a .prj written next to a generated shapefile must come back from (*shp.Decoder).SR() equal to proj.Parse of the text; " +
+			"registry phase: registered names vs their published definition strings (Equal, identical outputs), same text parsed twice (also after one of the two references has been used in transformations), and NewTransform == nil exactly when Equal(…, 3) for pairs that are identical or differ by 1 ulp / 1e-9 / name / units / datum-parameter count; a .prj written next to a generated shapefile must come back from (*shp.Decoder).SR() equal to proj.Parse of the text; " +
 			"an evaluation is one position or one pair judged; non-trivial = definition with a non-metre unit, a TOWGS84 clause or the OGC spelling; distinct by definition hash",
 		Assumptions: []string{"a WKT DATUM without TOWGS84 states a WGS84-equivalent datum while +a +rf without +datum states none (two different statements): such definitions are compared from the geographic system on the same spheroid, itself spelled both ways", "false origin: PROJ.4 metres = WKT value x linear unit"},
 		Phases: []core.Phase{
@@ -511,6 +511,25 @@ func runRegistry(c *core.Ctx, idx int) {
 			t, err := a.NewTransform(b)
 			if err != nil || t != nil {
 				c.Violate("equal-but-transformer", fmt.Sprintf("NewTransform between Equal references returned a non-nil transformer (err=%v)", err), detail)
+			}
+			// the same after one of the two has been used: a third parse of the text, then a
+			// transformation from a to the registered WGS84 and back
+			if w, err := proj.Parse("WGS84"); err == nil {
+				if tw, err := a.NewTransform(w); err == nil && tw != nil {
+					tw(1, 1)
+				}
+				if tw, err := w.NewTransform(a); err == nil && tw != nil {
+					tw(0.1, 0.1)
+				}
+				c.Count("registry.equal_after_use")
+				b2, err := proj.Parse(text)
+				if err != nil || !a.Equal(b2, 0) || !b2.Equal(a, 3) {
+					c.Violate("parse-twice-not-equal:after-use", "a reference that has been used in a transformation is no longer Equal to a fresh parse of the same text", detail)
+					return
+				}
+				if t, err := a.NewTransform(b2); err != nil || t != nil {
+					c.Violate("equal-but-transformer:after-use", fmt.Sprintf("NewTransform between a used reference and a fresh parse of the same text returned a non-nil transformer (err=%v)", err), detail)
+				}
 			}
 		})
 	case 2: // NewTransform nil exactly when Equal
